@@ -71,24 +71,45 @@ partial def valEq : Val → Val → Bool
   | .null, .null => true
   | _, _ => false
 
-/-- `k:n[,k:n]` or `-`: value parameter `k` of the top-level object holds the `n` bytes `i % 251` -/
-def parseBig? (s : String) : Option (List (Nat × Nat)) :=
+/-- `k:n[,k:n]` or `-`: value parameter `k` of the top-level object holds the `n` bytes `i % 251`;
+`k.j:n`: element `j` of the vector that value parameter `k` holds does -/
+def parseBig? (s : String) : Option (List (Nat × Option Nat × Nat)) :=
   if s == "-" then some [] else
   (s.splitOn ",").mapM fun kn =>
     match kn.splitOn ":" with
-    | [k, n] => match k.toNat?, n.toNat? with
-      | some k, some n => if n ≤ 2 ^ 25 then some (k, n) else none
-      | _, _ => none
+    | [k, n] =>
+      match n.toNat? with
+      | none => none
+      | some n =>
+        if n > 2 ^ 25 then none else
+        match k.splitOn "." with
+        | [k] => k.toNat?.map fun k => (k, none, n)
+        | [k, j] => match k.toNat?, j.toNat? with
+          | some k, some j => some (k, some j, n)
+          | _, _ => none
+        | _ => none
     | _ => none
 
 def pattern (n : Nat) : Bytes := (List.range n).map fun i => UInt8.ofNat (i % 251)
 
-def putBig : Val → List (Nat × Nat) → Option Val
+/-- a string / byte string value replaced by the pattern of `n` bytes -/
+def bigOf (n : Nat) : Val → Option Val
+  | .str _ => some (.str (pattern n))
+  | .bytes _ _ => some (.bytes false (pattern n))
+  | _ => none
+
+def putBig : Val → List (Nat × Option Nat × Nat) → Option Val
   | v, [] => some v
-  | .obj id fs, (k, n) :: rest =>
+  | .obj id fs, (k, none, n) :: rest =>
+    match (fs[k]?).bind (bigOf n) with
+    | some x => putBig (.obj id (fs.set k x)) rest
+    | none => none
+  | .obj id fs, (k, some j, n) :: rest =>
     match fs[k]? with
-    | some (.str _) => putBig (.obj id (fs.set k (.str (pattern n)))) rest
-    | some (.bytes _ _) => putBig (.obj id (fs.set k (.bytes false (pattern n)))) rest
+    | some (.vec isNil items) =>
+      match (items[j]?).bind (bigOf n) with
+      | some x => putBig (.obj id (fs.set k (.vec isNil (items.set j x)))) rest
+      | none => none
     | _ => none
   | _, _ => none
 
@@ -127,17 +148,52 @@ def gzLine (wrap v big : String) : String :=
         s!"enc={showBytes bs} dec={dec}"
   | _, _ => "bad-op"
 
-def handle : List String → String
-  | ["c02.gz", wrap, _id, v, big] => if wrap == "gz" || wrap == "rpc" then gzLine wrap v big else "bad-op"
-  | ["c02.enc", _id, v] =>
-    match parse? v with
+/-- `c02.enc`: the bytes the schema lines define for the value -/
+def encLine (v : String) : String :=
+  match parse? v with
+  | none => "bad-op"
+  | some val =>
+    match specVal schema val with
+    | .ok bs => s!"enc={fullHex bs}"
+    | .err "notInSchema" => "enc=notInSchema"
+    | .err _ => "enc=err"
+    | .panic _ => "enc=panic"
+
+/-- `c02.big`: the schema-defined bytes (length and digest) of the value with the long byte strings in place -/
+def bigLine (v big : String) : String :=
+  match parse? v, parseBig? big with
+  | some v0, some bigs =>
+    match putBig v0 bigs with
     | none => "bad-op"
     | some val =>
       match specVal schema val with
-      | .ok bs => s!"enc={fullHex bs}"
+      | .ok bs => s!"enc={showBytes bs}"
       | .err "notInSchema" => "enc=notInSchema"
       | .err _ => "enc=err"
       | .panic _ => "enc=panic"
+  | _, _ => "bad-op"
+
+/-- `c02.str`: one byte string, written and read back -/
+def strLine (b : String) : String :=
+  match parseBytes? b with
+  | some bs =>
+    match putMessage bs with
+    | .ok e =>
+      match popMessage (e ++ [1, 2, 3, 4]) with
+      | .ok (m, r) => s!"enc={showBytes e} back={m == bs && r == [1, 2, 3, 4]}"
+      | _ => s!"enc={showBytes e} back=err"
+    | .err _ => "refused"
+    | .panic _ => "panic"
+  | none => "bad-op"
+
+def handle : List String → String
+  | ["c02.gz", wrap, _id, v, big] => if wrap == "gz" || wrap == "rpc" then gzLine wrap v big else "bad-op"
+  | ["c02.enc", _id, v] => encLine v
+  -- the same tree with one Go object at several positions (`alias`) or every position its own (`distinct`):
+  -- values of the schema side are trees, the bytes are those of the tree either way
+  | ["c02.enc", _id, v, mode] => if mode == "alias" || mode == "distinct" then encLine v else "bad-op"
+  -- whichever writer the bytes go to (`marshal`: tl.Marshal, `writer`: an Encoder over a plain io.Writer)
+  | ["c02.big", _id, v, big, how] => if how == "marshal" || how == "writer" then bigLine v big else "bad-op"
   | ["c02.encz", _id, v, k] =>
     -- the schema bytes of the value with the flag bit of value parameter `k` set although the value of
     -- that parameter is the zero of its type: "present with the zero value"
@@ -161,17 +217,10 @@ def handle : List String → String
     match k.toNat? with
     | some k => decLine b v (some k)
     | none => "bad-op"
-  | ["c02.str", b] =>
-    match parseBytes? b with
-    | some bs =>
-      match putMessage bs with
-      | .ok e =>
-        match popMessage (e ++ [1, 2, 3, 4]) with
-        | .ok (m, r) => s!"enc={showBytes e} back={m == bs && r == [1, 2, 3, 4]}"
-        | _ => s!"enc={showBytes e} back=err"
-      | .err _ => "refused"
-      | .panic _ => "panic"
-    | none => "bad-op"
+  | ["c02.str", b] => strLine b
+  -- a Go string / []byte / element of a vector of strings, into a bytes.Buffer or a plain writer: one byte string
+  | ["c02.str", b, how] =>
+    if ["msg", "str", "vec", "msgw", "strw", "vecw"].contains how then strLine b else "bad-op"
   | _ => "bad-op"
 
 end Driver.C02
